@@ -1,18 +1,26 @@
 #!/bin/bash
 # Build the whole framework offline from files on disk: Lean library + drivers, Rust harness (hooks on).
-set -e
+# Each registered property is built on its own so that one broken property cannot take the others down;
+# `./check Cxx` rebuilds what it needs anyway and reports a build failure as a broken tie of that property only.
 cd "$(dirname "$0")"
 export CARGO_NET_OFFLINE=true
-mods=$(python3 - <<'P'
+mkdir -p .cache evidence replays
+fail=0
+python3 - > .cache/setup-targets.txt <<'P'
 import json,glob
-out=[]
 for f in sorted(glob.glob('props/C*.json')):
     p=json.load(open(f))
-    out+=p.get('lean_modules',[])
-    if p.get('driver'): out.append(p['driver'])
-print(' '.join(dict.fromkeys(out)))
+    print(p['id'], p.get('harness_bin') or '-', ' '.join(p.get('lean_modules',[]) + ([p['driver']] if p.get('driver') else [])))
 P
-)
-(cd lean && lake build $mods)
-(cd harness && cargo build --offline --bins)
-echo setup done
+# one cargo invocation for all bins first (shares the dependency build); fall back to per-bin on failure
+bins=$(awk '$2!="-"{printf "--bin %s ", $2}' .cache/setup-targets.txt)
+(cd harness && cargo build --offline $bins) || {
+  while read -r id bin mods; do
+    [ "$bin" = "-" ] || (cd harness && cargo build --offline --bin "$bin") || { echo "setup: harness bin $bin ($id) failed"; fail=1; }
+  done < .cache/setup-targets.txt
+}
+while read -r id bin mods; do
+  (cd lean && lake build $mods) || { echo "setup: lean targets of $id failed"; fail=1; }
+done < .cache/setup-targets.txt
+echo "setup done (fail=$fail)"
+exit 0
